@@ -500,10 +500,12 @@ bool run_stream(Ctx& k, const std::string& tag0)
       obj->write_bin(bs);
       if(bs.fail()) return k.fail(tag + ": stream in fail state after writing");
       std::size_t len = std::size_t(pal[arg - 1]["bin"]["len"].as_int());
-      if(std::size_t(bs.size()) != std::size_t(o["size"].as_int())) return k.fail(tag + ": stream holds " + std::to_string(bs.size()) + " bytes, expected " + std::to_string(o["size"].as_int()) + " (the container must be appended at byte " + std::to_string(off) + ")");
+      if(std::size_t(bs.size()) != std::size_t(o["size"].as_int())) return k.fail(tag + ": stream holds " + std::to_string(bs.size()) + " bytes, expected " + std::to_string(o["size"].as_int()) + " (the container must be written at byte " + std::to_string(off) + ")");
       if(!check_bin(k, pal[arg - 1]["bin"], bs.data() + off, len, tag)) return false;
     }
     else if(op == "seek0") { bs.seekg(0); if(bs.fail()) return k.fail(tag + ": seekg(0) failed"); }
+    else if(op == "seekg") { bs.seekg(std::streamoff(arg)); if(bs.fail()) return k.fail(tag + ": seekg(" + std::to_string(arg) + ") failed"); }
+    else if(op == "seekp") { bs.seekp(std::streamoff(arg)); if(bs.fail()) return k.fail(tag + ": seekp(" + std::to_string(arg) + ") failed"); }
     else if(op == "read")
     {
       std::unique_ptr<ObjBase> fresh = make_obj<DT, IT>(pal[arg - 1]["c"], true);
@@ -525,7 +527,7 @@ bool run_stream(Ctx& k, const std::string& tag0)
       }
       cp.save(bs);
       if(bs.fail()) return k.fail(tag + ": stream in fail state after saving");
-      if(std::size_t(bs.size()) != std::size_t(o["size"].as_int())) return k.fail(tag + ": stream holds " + std::to_string(bs.size()) + " bytes, expected " + std::to_string(o["size"].as_int()) + " (the checkpoint must be appended at byte " + std::to_string(off) + ")");
+      if(std::size_t(bs.size()) != std::size_t(o["size"].as_int())) return k.fail(tag + ": stream holds " + std::to_string(bs.size()) + " bytes, expected " + std::to_string(o["size"].as_int()) + " (the checkpoint must be written at byte " + std::to_string(off) + ")");
       if(!check_ckpt_bytes(k, ck, bs.data() + off, std::size_t(ck["total"].as_int()) + 8, tag)) return false;
     }
     else if(op == "load")
